@@ -426,3 +426,34 @@ Proof.
   cbn [map]. xfin. set (a := mean _). set (b := R_sqrt.sqrt _).
   replace (d + (a + b * mu)) with (d + a + b * mu) by ring. replace (d + (a - b * mu)) with (d + a - b * mu) by ring. reflexivity.
 Qed.
+
+(* ---- SlowStochastic = EMA(FastStochastic): unchanged by x -> c*x + d, c > 0 ---- *)
+Theorem slow_affine : forall p q s c d xs, slow_new O p q = Ok s -> 0 < c ->
+  slow_outs O s (map Fin (map (fun y => c * y + d) xs)) = slow_outs O s (map Fin xs).
+Proof.
+  intros p q s c d xs H Hc. unfold slow_new in H.
+  destruct (fast_new O p) as [f| |] eqn:Ef; cbn in H; try discriminate.
+  destruct (ema_new O q) as [e| |] eqn:Ee; cbn in H; try discriminate. injection H as <-.
+  rewrite !slow_wiring. rewrite (fast_affine p f c d xs Ef Hc). reflexivity.
+Qed.
+
+(* ---- OBV: only the order of consecutive closes and the volumes matter: unchanged when closes are scaled by c > 0 ---- *)
+Theorem obv_scale : forall c (bars : list (R * R)) acc prev, 0 < c ->
+  obv_rec O acc (Fin (c * prev)) (map (fun b : R * R => mkBar (Fin 0) (Fin 0) (Fin 0) (Fin (c * fst b)) (Fin (snd b))) bars) =
+  obv_rec O acc (Fin prev) (map (fun b : R * R => mkBar (Fin 0) (Fin 0) (Fin 0) (Fin (fst b)) (Fin (snd b))) bars).
+Proof.
+  intros c bars acc prev Hc. revert acc prev; induction bars as [|[cl v] bars IH]; intros acc prev; [reflexivity|].
+  cbn [map obv_rec b_close b_volume fst snd].
+  assert (E1 : ltb O (Fin (c * prev)) (Fin (c * cl)) = ltb O (Fin prev) (Fin cl)).
+  { cbn [ltb O]. unfold xr_ltb. destruct (Rlt_dec (c * prev) (c * cl)), (Rlt_dec prev cl); try reflexivity; exfalso; nra. }
+  assert (E2 : ltb O (Fin (c * cl)) (Fin (c * prev)) = ltb O (Fin cl) (Fin prev)).
+  { cbn [ltb O]. unfold xr_ltb. destruct (Rlt_dec (c * cl) (c * prev)), (Rlt_dec cl prev); try reflexivity; exfalso; nra. }
+  rewrite E1, E2. f_equal. apply IH.
+Qed.
+Corollary obv_scale_new : forall c (bars : list (R * R)), 0 < c ->
+  obv_outs O (obv_new O) (map (fun b : R * R => mkBar (Fin 0) (Fin 0) (Fin 0) (Fin (c * fst b)) (Fin (snd b))) bars) =
+  obv_outs O (obv_new O) (map (fun b : R * R => mkBar (Fin 0) (Fin 0) (Fin 0) (Fin (fst b)) (Fin (snd b))) bars).
+Proof.
+  intros c bars Hc. rewrite !obv_from_new. change (zero O) with (Fin 0). rewrite <- (obv_scale c bars (Fin 0) 0 Hc).
+  rewrite Rmult_0_r. reflexivity.
+Qed.
